@@ -68,7 +68,8 @@ def verdict(contract, module, env, outcome):
     ev.update(env)
     violated = []
     try:
-        for r in contract.requires:
+        only = getattr(contract, 'concrete_only', False)
+        for r in ([] if only else contract.requires):
             if not eval(r, ev):
                 return 'model-violates-requires', [r]
         if outcome['kind'] == 'return':
@@ -85,7 +86,8 @@ def verdict(contract, module, env, outcome):
                     if not eval(e, dict(ev, c=c)):
                         violated.append('yielded element violates: ' + e)
                         break
-            for e in contract.ensures + contract.ensures_all + contract.concrete_ensures:
+            for e in (contract.concrete_ensures if only else
+                      contract.ensures + contract.ensures_all + contract.concrete_ensures):
                 if not eval(e, ev):
                     violated.append('ensures: ' + e)
             for cls in contract.raises_iff:
@@ -95,7 +97,7 @@ def verdict(contract, module, env, outcome):
         else:
             names = outcome['cls']
             declared = [d for d in contract.raises if d in names]
-            for e in contract.ensures_exc + contract.ensures_all:
+            for e in ([] if only else contract.ensures_exc + contract.ensures_all):
                 if not eval(e, ev):
                     violated.append('on exception: ' + e)
             if not declared:
